@@ -53,6 +53,17 @@ RULE = ('prog cases: random template trees over atoms (Constant/Table/Point/Func
         'nested mappings and at the top level, a parameter called t, get_measurement_windows() queried twice, '
         'reverse_inplace twice; missing-parameter cases (parameters removed from the assignment: parameter_names '
         'compared with the model, ParameterNotProvidedException only if a declared parameter is missing).  '
+        'Round 4 families: coinciding window triples (equal name after the mappings, equal begin, equal length) at every '
+        'place where window lists are merged - one node, parallel parts, arithmetic operands, sequence guard, abutting '
+        'children, repetition / iteration tiling, zero-duration leaves, renaming onto one name, symbolic coincidence - '
+        'deterministic per merge point + the ordinary grammar over a low-entropy pool + low-entropy hand-built loops '
+        '(also through rw / flat); the same object below two measurement mappings with the same keys / two parameter '
+        'mappings, and create_program called before the observed call with other arguments (other mapping, parameters, '
+        'channel mapping, without to_single_waveform, failing calls); TimeReversalPT / ParallelChannelPT / scalar '
+        'ArithmeticPT (both operand slots) / identifiers around atomic parts INSIDE atomic composites; '
+        'get_measurement_windows(drop=True) on every program / loop; loops extended by append_child after a query; inner '
+        'nodes with windows and nothing to play; cleanup() of programs with volatile counts; negative split index; '
+        'AtomicMultiChannelPT built through with_parallel_atomic.  '
         'Thorough tier adds exhaustive small scopes (template shapes, loop trees, rewrites, aliasing contexts, '
         'rebinding expressions x ranges, renamings of two names x top-level mappings).  Non-trivial = '
         'at least two reported windows under at least two nested composite nodes / two nested loops, traces of >= 6 '
@@ -306,7 +317,8 @@ class G:
             if how == 'rev':
                 return {'k': 'rev', 'body': inner}
             if how == 'pass':
-                return {'k': 'pass', 'how': 'par' if 'A' in chs and self.rng.random() < 0.5 else 'mul', 'body': inner}
+                return {'k': 'pass', 'how': 'par' if 'A' in chs and self.rng.random() < 0.5 else self.rng.choice(['mul', 'rmul']),
+                        'body': inner}
             return inner if inner['k'] == 'single' else {'k': 'single', 'body': inner}
         r = self.rng.random()
         if d <= 0 or r < 0.4:
@@ -415,7 +427,7 @@ class G:
             if body['k'] == 'single':
                 return body
             return {'k': 'single', 'body': body}
-        return {'k': 'pass', 'how': self.rng.choice(['par', 'mul']), 'body': self.node(chs, idxs, d - 1)}
+        return {'k': 'pass', 'how': self.rng.choice(['par', 'mul', 'rmul']), 'body': self.node(chs, idxs, d - 1)}
 
     def force_index(self, body, idx, chs):
         """ForLoopPT insists that the body uses the loop index: append an atom that does"""
@@ -752,6 +764,8 @@ def build_pt(t, singles, share=False):
             inner = go(t['body'])
             if t['how'] == 'par':
                 return ParallelChannelPT(inner, {'A': 0.5}, **kw)
+            if t['how'] == 'rmul':      # scalar on the left: the other operand slot of ArithmeticPulseTemplate
+                return ArithmeticPulseTemplate(2, '*', inner, **kw)
             return ArithmeticPulseTemplate(inner, '*', 2, **kw)
         raise ValueError(k)
     return go(t)
@@ -1336,7 +1350,9 @@ MANIFEST = {
                   'proved at Loop level under the executable guard vwok (only last children change, stale cached '
                   'durations never used as step / offset); the guard cannot be dropped (witness).  (7) assignments '
                   'that agree on the declared parameters (= parameter_names, compared per case) give the same plays / '
-                  'duration / windows / program.  All '
+                  'duration / windows / program.  (8) an atomic template (mapping / reversal / pass-through wrappers '
+                  'included) contributes the same windows as a part of an atomic composite (get_measurement_windows) and '
+                  'as a node of its own (_internal_create_program): the two code paths agree.  All '
                   'models are tied to /repo by exact correspondence checks (programs, hand-built loops, step-by-step '
                   'builder traces, constructor merges, rewrites, volatile updates).',
     'level_note': 'Trusted: Coq kernel, harness + builder instrumentation, sympy/numpy evaluation of expressions, waveform '
@@ -1344,8 +1360,12 @@ MANIFEST = {
                   'template class makes (Stack.events; checked call by call against instrumented runs).  Tested only: '
                   'windows under make_compatible (Python-side oracle; not modelled in Coq), the template-level link of '
                   'the volatile guard (guard on the model programs + nothing reversed + counts >= 1 => windows = '
-                  'denote under the new counts: CVolG cases), termination of flatten_and_balance (fuel).  Not covered: '
-                  'which missing parameter is reported; check / rejection kinds under absent parameters.',
+                  'denote under the new counts: CVolG cases), termination of flatten_and_balance (fuel); windows are a '
+                  'multiset everywhere (coinciding triples kept) and nothing leaks between calls / occurrences of one object: '
+                  'theorems of the model, tied to the code by the round-4 families.  Not covered: '
+                  'which missing parameter is reported; check / rejection kinds under absent parameters; the mirror axis of '
+                  'a reversed atomic composite whose first part does not play (AtomicMultiChannelPT.duration, C04); '
+                  'rewrites on loops with volatile counts.',
     'technique': 'Coq proofs by induction on the template tree (functional builder, refinement of the stack machine, '
                  'mapping merge, acceptance) and on Loop trees (reversal, cleanup, rewrites) + correspondence checks',
     'design_ref': 'DESIGN.md §5 C02, §4.5, §4.6, Appendix D3; notes/C02.md',
